@@ -567,25 +567,31 @@ func lexRulesLayout(c *Ctx) {
 		if !hasNext {
 			continue
 		}
+		// every edge leaving the loop must be the `typ != COMMENT` edge
+		exits, good := 0, 0
 		for b := range l.Blocks {
-			iff, isIf := b.Instrs[len(b.Instrs)-1].(*ssa.If)
-			if !isIf {
-				continue
-			}
-			bo, isB := iff.Cond.(*ssa.BinOp)
-			if !isB {
-				continue
-			}
-			if v, isC := constInt(bo.Y); isC && v == commentV {
-				// `typ != COMMENT` true-edge must leave the loop; or `typ == COMMENT` false-edge leaves
-				exitIdx := 0
-				if bo.Op.String() == "==" {
-					exitIdx = 1
+			for si, sc := range b.Succs {
+				if l.Blocks[sc] {
+					continue
 				}
-				if !l.Blocks[b.Succs[exitIdx]] && l.Blocks[b.Succs[1-exitIdx]] {
-					ok = true
+				exits++
+				iff, isIf := b.Instrs[len(b.Instrs)-1].(*ssa.If)
+				if !isIf {
+					continue
+				}
+				bo, isB := iff.Cond.(*ssa.BinOp)
+				if !isB {
+					continue
+				}
+				if v, isC := constInt(bo.Y); isC && v == commentV {
+					if (bo.Op.String() == "!=" && si == 0) || (bo.Op.String() == "==" && si == 1) {
+						good++
+					}
 				}
 			}
+		}
+		if exits > 0 && exits == good {
+			ok = true
 		}
 	}
 	r.Ob("LEX-LAYOUT", "(*parser).Lex skips COMMENT items", t.Pos(lex.Pos()), ok, "the token loop in parser.Lex must continue exactly while the item type is COMMENT")
